@@ -109,4 +109,118 @@ def DirectivesOK (s : SchemaD) : Prop :=
 def ValidSchema (s : SchemaD) (rv : Bool := true) : Prop :=
   RootsOK s ∧ (∀ t ∈ s.types, TypeOK s rv t) ∧ DirectivesOK s
 
+/-! ### violation instances — one constructor per rule (= per `add_error` call site)
+
+  A *violation instance* is a rule together with the position that breaks it; the error it must
+  produce carries that position as its subject. Element-level rules speak about an element `x` of a
+  member list together with what precedes it (`At xs pre x`): uniqueness rules fire on every later
+  occurrence of a name, the other rules of an element on its first occurrence (a repeated member is
+  reported as a duplicate and not examined further), and a type whose own name is rejected is not
+  examined further. -/
+
+/-- `x` occurs in `xs` with exactly `pre` before it -/
+def At {α} (xs pre : List α) (x : α) : Prop := ∃ post, xs = pre ++ x :: post
+
+inductive ArgViol (s : SchemaD) (dupRule notInputRule : Rule) (owner : String) (args : List ArgD) : Err → Prop
+  | name {pre a} : At args pre a → isValidName a.name = false →
+      ArgViol s dupRule notInputRule owner args ⟨.invalidName, [a.name]⟩
+  | dup {pre a} : At args pre a → a.name ∈ pre.map (·.name) →
+      ArgViol s dupRule notInputRule owner args ⟨dupRule, [a.name, owner]⟩
+  | notInput {pre a} : At args pre a → a.name ∉ pre.map (·.name) → isInputType s a.type = false →
+      ArgViol s dupRule notInputRule owner args ⟨notInputRule, [a.name, owner, a.type.render]⟩
+
+inductive ResolverViol (path : String) (args : List ArgD) (r : ResolverD) : Err → Prop
+  | missingParam {a} : a ∈ args → findParam r.params a.pythonName = none →
+      r.params.any (·.kind == .varKw) = false → ResolverViol path args r ⟨.resMissingParam, [a.name, path]⟩
+  | posOnly {a p} : a ∈ args → findParam r.params a.pythonName = some p → p.kind = .posOnly →
+      ResolverViol path args r ⟨.resPosOnly, [a.name, path]⟩
+  | needsDefault {a p} : a ∈ args → findParam r.params a.pythonName = some p → p.kind ≠ .posOnly →
+      p.hasDefault = false → a.hasDefault = false → argRequired a = false →
+      ResolverViol path args r ⟨.resNeedsDefault, [a.name, path]⟩
+  | positional : r.params.any (·.kind == .varPos) = false →
+      ((remainingParams r.params args).filter (fun p => isPositionalKind p.kind)).length < 3 →
+      ResolverViol path args r ⟨.resPositional, [path]⟩
+  | extraRequired {p} : p ∈ (remainingParams r.params args).drop 3 → p.hasDefault = false →
+      ResolverViol path args r ⟨.resExtraRequired, [p.name, path]⟩
+
+inductive FieldViol (s : SchemaD) (rv : Bool) (t : TypeD) : Err → Prop
+  | name {pre f} : At t.fields pre f → isValidName f.name = false → FieldViol s rv t ⟨.invalidName, [f.name]⟩
+  | dup {pre f} : At t.fields pre f → f.name ∈ pre.map (·.name) → FieldViol s rv t ⟨.dupField, [f.name, t.name]⟩
+  | notOutput {pre f} : At t.fields pre f → f.name ∉ pre.map (·.name) → isOutputType s f.type = false →
+      FieldViol s rv t ⟨.fieldNotOutput, [f.name, t.name, f.type.render]⟩
+  | arg {pre f e} : At t.fields pre f → f.name ∉ pre.map (·.name) →
+      ArgViol s .dupArg .argNotInput (t.name ++ "." ++ f.name) f.args e → FieldViol s rv t e
+  | resolver {pre f r e} : At t.fields pre f → f.name ∉ pre.map (·.name) → pickResolver s t f = some r →
+      rv = true → r.inspectable = true → ResolverViol (t.name ++ "." ++ f.name) f.args r e → FieldViol s rv t e
+
+inductive ImplViol (s : SchemaD) (t it : TypeD) : Err → Prop
+  | fieldMissing {f} : f ∈ it.fields → fieldMap t f.name = none →
+      ImplViol s t it ⟨.ifaceFieldMissing, [it.name ++ "." ++ f.name, t.name]⟩
+  | fieldType {f o} : f ∈ it.fields → fieldMap t f.name = some o → ¬ Subtype s o.type f.type →
+      ImplViol s t it ⟨.ifaceFieldType, [it.name ++ "." ++ f.name, f.type.render, t.name ++ "." ++ f.name, o.type.render]⟩
+  | argMissing {f o a} : f ∈ it.fields → fieldMap t f.name = some o → Subtype s o.type f.type →
+      a ∈ f.args → argMap o a.name = none →
+      ImplViol s t it ⟨.ifaceArgMissing, [it.name ++ "." ++ f.name, a.name, t.name ++ "." ++ f.name]⟩
+  | argType {f o a oa} : f ∈ it.fields → fieldMap t f.name = some o → Subtype s o.type f.type →
+      a ∈ f.args → argMap o a.name = some oa → a.type ≠ oa.type →
+      ImplViol s t it ⟨.ifaceArgType, [it.name ++ "." ++ f.name, a.name, a.type.render, t.name ++ "." ++ f.name, a.name, oa.type.render]⟩
+  | extraRequired {f o a} : f ∈ it.fields → fieldMap t f.name = some o → Subtype s o.type f.type →
+      a ∈ o.args → argMap f a.name = none → a.type.isNonNull = true →
+      ImplViol s t it ⟨.extraRequiredArg, [t.name ++ "." ++ f.name, a.name, a.type.render, it.name ++ "." ++ f.name]⟩
+
+def isIface (s : SchemaD) (i : String) : Bool :=
+  match s.findType i with | some it => it.kind == .interface | none => false
+
+inductive IfaceViol (s : SchemaD) (t : TypeD) : Err → Prop
+  | notInterface {pre i} : At t.interfaces pre i → isIface s i = false →
+      IfaceViol s t ⟨.notInterface, [t.name, i]⟩
+  | dup {pre i} : At t.interfaces pre i → isIface s i = true → i ∈ pre → IfaceViol s t ⟨.dupInterface, [t.name, i]⟩
+  | impl {pre i it e} : At t.interfaces pre i → s.findType i = some it → it.kind = .interface → i ∉ pre →
+      ImplViol s t it e → IfaceViol s t e
+
+inductive UnionViol (s : SchemaD) (t : TypeD) : Err → Prop
+  | empty : t.members = [] → UnionViol s t ⟨.unionEmpty, [t.name]⟩
+  | notObject {pre m} : At t.members pre m → kindOf s m ≠ some .object → UnionViol s t ⟨.unionMemberNotObject, [t.name, m]⟩
+  | dup {pre m} : At t.members pre m → kindOf s m = some .object → m ∈ pre → UnionViol s t ⟨.unionDup, [t.name, m]⟩
+
+inductive EnumViol (t : TypeD) : Err → Prop
+  | empty : t.values = [] → EnumViol t ⟨.enumEmpty, [t.name]⟩
+  | name {v} : v ∈ t.values → isValidName v.name = false → EnumViol t ⟨.invalidName, [v.name]⟩
+
+inductive InputViol (s : SchemaD) (t : TypeD) : Err → Prop
+  | empty : t.inputFields = [] → InputViol s t ⟨.noFields, [t.name]⟩
+  | name {pre f} : At t.inputFields pre f → isValidName f.name = false → InputViol s t ⟨.invalidName, [f.name]⟩
+  | dup {pre f} : At t.inputFields pre f → f.name ∈ pre.map (·.name) → InputViol s t ⟨.dupField, [f.name, t.name]⟩
+  | notInput {pre f} : At t.inputFields pre f → f.name ∉ pre.map (·.name) → isInputType s f.type = false →
+      InputViol s t ⟨.inputFieldNotInput, [f.name, t.name, f.type.render]⟩
+
+/-- the type's own name passed (or the type is specified / introspection) -/
+def Examined (t : TypeD) : Prop := (t.builtin || isValidName t.name) = true
+
+inductive TypeViol (s : SchemaD) (rv : Bool) (t : TypeD) : Err → Prop
+  | typeName : (t.builtin || isValidName t.name) = false → TypeViol s rv t ⟨.invalidTypeName, [t.name]⟩
+  | noFields : Examined t → (t.kind = .object ∨ t.kind = .interface) → t.fields = [] →
+      TypeViol s rv t ⟨.noFields, [t.name]⟩
+  | field {e} : Examined t → (t.kind = .object ∨ t.kind = .interface) → FieldViol s rv t e → TypeViol s rv t e
+  | iface {e} : Examined t → t.kind = .object → IfaceViol s t e → TypeViol s rv t e
+  | union {e} : Examined t → t.kind = .union → UnionViol s t e → TypeViol s rv t e
+  | enum {e} : Examined t → t.kind = .enum → EnumViol t e → TypeViol s rv t e
+  | input {e} : Examined t → t.kind = .input → InputViol s t e → TypeViol s rv t e
+
+inductive RootViol (s : SchemaD) : Err → Prop
+  | noQuery : s.query = none → RootViol s ⟨.noQuery, []⟩
+  | query {n} : s.query = some n → kindOf s n ≠ some .object → RootViol s ⟨.queryNotObject, [n]⟩
+  | mutation {n} : s.mutation = some n → kindOf s n ≠ some .object → RootViol s ⟨.mutationNotObject, [n]⟩
+  | subscription {n} : s.subscription = some n → kindOf s n ≠ some .object → RootViol s ⟨.subscriptionNotObject, [n]⟩
+
+inductive DirViol (s : SchemaD) : Err → Prop
+  | name {d} : d ∈ s.directives → isValidName d.name = false → DirViol s ⟨.invalidName, [d.name]⟩
+  | arg {d e} : d ∈ s.directives → ArgViol s .dirDupArg .dirArgNotInput d.name d.args e → DirViol s e
+
+/-- all violation instances of a schema, with the error each one must produce -/
+inductive Violation (s : SchemaD) (rv : Bool) : Err → Prop
+  | root {e} : RootViol s e → Violation s rv e
+  | type {t e} : t ∈ s.types → TypeViol s rv t e → Violation s rv e
+  | directive {e} : DirViol s e → Violation s rv e
+
 end PyGql.SchemaValidSpec
